@@ -12,11 +12,12 @@ META = dict(
               "on-disk working tree and the recorded result (new revision tree, iter_changes, working tree, tip, revision "
               "set) is judged by the TLA+ laws; commits re-run with every state-changing repository/branch transport "
               "operation, message_callback and hooks failing",
-    level_text="Small-scope exhaustive: all edit sequences of length <= 2 (3 sampled in thorough) over add / remove / rename / "
-               "modify / chmod / delete-on-disk / kind change on a 5-id namespace with nested directories, combined with all "
-               "selections of <= 2 paths and exclusions of <= 1 (2) paths. TLC checks ValidTree, the per-id substitution rule and "
-               "that refused / failed commits are no-ops on the model, and evaluates the same laws on what the real commit "
-               "did. The fault half enumerates every mutating transport operation of the commit as a failure point.",
+    level_text="Small scope: all edit sequences of length <= 1 and a seeded sample of those of length 2 (quick 1/36, thorough 1/2; "
+               "thorough also 1/300 of length 3) over add / remove / rename / modify / chmod / delete-on-disk / kind change on a 5-id "
+               "namespace with nested directories, each combined with every distinct selection reachable by <= 2 specific files "
+               "and <= 1 (2) excludes. TLC checks ValidTree, the per-id substitution rule and that refused / failed commits are "
+               "no-ops on the model (state machine exhaustively for <= 2 edits), and evaluates the same laws on what the real "
+               "commit did. The fault half makes every mutating transport operation of sampled commits fail once.",
     level_note="File contents are two model values; paths are at most 3 segments; one pending merge / conflict flag. Nested "
                "trees, content filters, bound branches and git trees are not modelled. Faults are exceptions raised by the "
                "operation (not performed), not crashes. bzrformats / dromedary trusted as executed.",
